@@ -169,6 +169,18 @@ check(
     "DESIGN.md §3 C13",
 )
 
+check(
+    "C19",
+    "reference-monitor",
+    "exploration",
+    "runtime monitoring: reference filter evaluator beside the compiled pyparsing filter; before/after diff of real workspaces around 'jobs clean' and 'orphans' invoked through click",
+    "Random filter expressions over tags/@state/@name (all four operators, and/or chains, both quote styles) are compiled by the real grammar and evaluated on random jobs against a "
+    "reference written from the documented meaning; real job directories in every marker state (including failed + live pid), indexed by experiments with index and backup index, are "
+    "cleaned / pruned through the CLI and the deleted set is compared with the reference selection.",
+    "Trusted: the reference evaluator (both readings of mixed and/or chains accepted, anchored regular expressions); 'running' = the process in the pid file is alive.",
+    "DESIGN.md §3 C19",
+)
+
 NOT_APPLICABLE = []
 
 
